@@ -183,6 +183,11 @@ class Model:
             yield st._replace(queries=bool(op[1])), None, ()
         elif k == "cell_size":
             yield from self._get_cell(st, lenient)
+        elif k == "cell_size_int":
+            # an interrupted get determines nothing and must memoize nothing; if the interruption
+            # did not happen it is an ordinary get
+            yield st, "interrupted", ()
+            yield from self._get_cell(st, lenient)
         elif k == "cell_ratio":
             if st.ratio is not None:
                 yield st, st.ratio, ()
@@ -259,7 +264,7 @@ class Model:
         else:
             raise ValueError(op)
 
-    CLAUSE = dict(cell_size="cell-size", cell_ratio="cell-ratio", ratio="set-cell-ratio", name="name-version",
+    CLAUSE = dict(cell_size="cell-size", cell_size_int="cell-size", cell_ratio="cell-ratio", ratio="set-cell-ratio", name="name-version",
                   colors="fg-bg-colors", render="kitty-workaround", tsc="terminal-size-cached", cached="cached")
 
     def step(self, op, obs):
@@ -317,6 +322,8 @@ def _opname(op):
                  cached_inv="probe._invalidate_cache()", fail_next="make the next probe body run raise",
                  start="Process.start() (cell-size cache migrates to shared memory)")
     k = op[0]
+    if k == "cell_size_int":
+        return f"get_cell_size() with {'KeyboardInterrupt' if op[2] == 'kbd' else 'termios.error'} at its tty call #{op[1]}"
     if k == "ratio":
         return f"set_cell_ratio({op[1]}) [raised, get_cell_ratio() afterwards]"
     if k == "colors":
